@@ -18,7 +18,7 @@ pub const FLOORS: &[&str] = &[
     "inspect", "addr:0", "addr:orig-1", "addr:orig", "addr:x7FFF", "addr:x8000", "addr:xFDFF",
     "addr:xFE00", "addr:xFFFF", "origin_high", "origin_low", "predefined_breakpoint_outside_user_space",
     "origin_zero", "origin_above_user_space", "wrong_case_label_rejected", "integer_beyond_32_bits_rejected",
-    "bare_number_like_label_is_a_number", "pc_outside_user_space",
+    "bare_number_like_label_is_a_number", "pc_outside_user_space", "integer_of_17_bits_rejected",
 ];
 
 const CMDS_PER_SESSION: u64 = 120;
@@ -239,6 +239,29 @@ fn one_case(seed: u64, i: u64, n_sessions: u64, sweep_all: bool) -> CaseOut {
                 3 => format!("move r{} {}", rng.below(8), spelt),
                 _ => format!("goto {}+{}", labels[0].0, spelt),
             }));
+            continue;
+        }
+        if rng.chance(1, 20) {
+            // one more than sixteen bits hold: 65536 is no address and no value (not x0000, whatever the origin is)
+            let big = 65536u64 + *rng.pick(&[0u64, 0, 0, 1, 2, 0x3000]);
+            let spelt = match rng.below(5) {
+                0 => format!("{}", big),
+                1 => format!("x{:x}", big),
+                2 => format!("#{}", big),
+                3 => format!("0x{:X}", big),
+                _ => format!("o{:o}", big),
+            };
+            let line = match rng.below(5) {
+                0 => format!("goto {}", spelt),
+                1 => format!("move {} x1234", spelt),
+                2 => format!("break add {}", spelt),
+                3 => format!("move r{} {}", rng.below(8), spelt),
+                _ => format!("break remove {}", spelt),
+            };
+            if crate::refcmd::parse(&line).is_err() {
+                classes.push("integer_of_17_bits_rejected".into());
+                cmds.push(Cmd::Rejected(line));
+            }
             continue;
         }
         if labels.iter().any(|(n, _)| n == "b10") && orig > 15 && rng.chance(1, 10) {
